@@ -12,7 +12,7 @@ MNext == \/ \E c \in {"activate", "ndef", "changed"} : Begin(c)
          \/ \E o \in 0..(Hi + 1), n \in 0..3, c \in 0..3 : Finish([none |-> FALSE, off |-> o, len |-> n, cap |-> c], Lo, Hi)
 MSpec == MInit /\ [][MNext]_mvars
 
-Bounded  == ncmd <= Budget /\ nretry <= 2
+Bounded  == ncmd <= Budget /\ nretry <= Budget
 NoRepeat == Cardinality(asked) <= Cardinality(Units)
 ResultOk == fin.none \/ InArea(fin, Lo, Hi)
 \* every call can end, with None and with a message (witnesses: TLC must violate)
